@@ -169,3 +169,16 @@ def DIRNAME(p):
     """Directory of a part name: everything before the last '/', '' when there is none."""
     sl = z3.StringVal("/")
     return z3.If(z3.Contains(p, sl), z3.SubString(p, 0, z3.LastIndexOf(p, sl)), z3.StringVal(""))
+
+
+def BASENAME(p):
+    sl = z3.StringVal("/")
+    k = z3.LastIndexOf(p, sl)
+    return z3.If(z3.Contains(p, sl), z3.SubString(p, k + 1, z3.Length(p) - k - 1), p)
+
+
+def RELS_PART(p):
+    """OPC: the relationships of part <dir>/<name> are stored in <dir>/_rels/<name>.rels (at the package root: _rels/<name>.rels)."""
+    sl = z3.StringVal("/")
+    return z3.If(z3.Contains(p, sl), z3.Concat(DIRNAME(p), z3.StringVal("/_rels/"), BASENAME(p), z3.StringVal(".rels")),
+                 z3.Concat(z3.StringVal("_rels/"), p, z3.StringVal(".rels")))
